@@ -445,6 +445,10 @@ class Ctx:
 
     def outcomes_agree(self, mo, no):
         if mo["status"] == "ret":
+            if no["status"] == "signal":
+                # the native run got past every rlbox check (an abort would have been reported as such) and then
+                # faulted on memory the engine models as readable raw memory: the operation did proceed
+                return True
             if no["status"] != "ret":
                 return False
             if mo["ret"] is not None:
